@@ -19,6 +19,8 @@ pub fn run_all(text: &str, ctx: &Ctx, log: &mut BTreeMap<&'static str, usize>) -
         ("R3", r3),
         ("R12", r12),
         ("R11", r11),
+        ("R14", r14),
+        ("R13", r13),
         ("R5", r5),
         ("R4", r4),
         ("R1", r1),
@@ -904,4 +906,94 @@ impl<'a, 'ast> Visit<'ast> for R12<'a> {
 }
 fn r12(src: &str, f: &syn::File, _c: &Ctx, e: &mut Vec<Edit>) {
     R12 { src, edits: e }.visit_file(f);
+}
+
+// ---------------------------------------------------------------------------------------------- R14
+// `X.iter().map(|PAT| BODY).sum::<f32>()`  ->  the definition of `impl Sum for f32` (core::iter: `iter.fold(-0.0, |a, b| a + b)`)
+// as an explicit loop:  { let mut acc_: f32 = -0.0; for PAT in X.iter() { acc_ = acc_ + (BODY); } acc_ }
+struct R14<'a> {
+    src: &'a str,
+    edits: &'a mut Vec<Edit>,
+}
+impl<'a, 'ast> Visit<'ast> for R14<'a> {
+    fn visit_expr_method_call(&mut self, m: &'ast syn::ExprMethodCall) {
+        if m.method == "sum" && m.args.is_empty() && m.turbofish.as_ref().map(|t| txt(self.src, t).contains("f32")).unwrap_or(false) {
+            if let Expr::MethodCall(mp) = &*m.receiver {
+                if mp.method == "map" && mp.args.len() == 1 {
+                    if let (Expr::Closure(c), Expr::MethodCall(it)) = (&mp.args[0], &*mp.receiver) {
+                        if it.method == "iter" && it.args.is_empty() && c.inputs.len() == 1 {
+                            let pat = txt(self.src, &c.inputs[0]);
+                            let body = txt(self.src, &*c.body);
+                            let x = txt(self.src, &*it.receiver);
+                            let (s, e) = nr(m);
+                            self.edits.push(Edit {
+                                start: s,
+                                end: e,
+                                text: format!("{{ let mut acc_: f32 = -0.0; for {} in {}.iter() {{ acc_ = acc_ + ({}); }} acc_ }}", pat, x, body),
+                                rule: "R14",
+                            });
+                            return;
+                        }
+                    }
+                }
+            }
+        }
+        visit::visit_expr_method_call(self, m);
+    }
+}
+fn r14(src: &str, f: &syn::File, _c: &Ctx, e: &mut Vec<Edit>) {
+    R14 { src, edits: e }.visit_file(f);
+}
+
+// ---------------------------------------------------------------------------------------------- R13
+// a function whose body is the single tail expression `X.iter().filter(|a| P).map(|b| F).collect()` and whose return type
+// is `HashSet<T>`: the meaning of filter / map / collect as an explicit loop
+//   { let mut out_ = HashSet::new(); for it_ in X.iter() { let keep_ = { let a = &it_; P }; if keep_ { let b = it_; out_.insert(F); } } out_ }
+struct R13<'a> {
+    src: &'a str,
+    edits: &'a mut Vec<Edit>,
+}
+impl<'a> R13<'a> {
+    fn try_fn(&mut self, sig: &syn::Signature, block: &syn::Block) {
+        let ret = match &sig.output { syn::ReturnType::Type(_, t) => txt(self.src, &**t).replace(' ', ""), _ => return };
+        if !ret.starts_with("HashSet<") || block.stmts.len() != 1 { return; }
+        if let Stmt::Expr(Expr::MethodCall(col), None) = &block.stmts[0] {
+            if col.method != "collect" || !col.args.is_empty() { return; }
+            if let Expr::MethodCall(mp) = &*col.receiver {
+                if mp.method != "map" || mp.args.len() != 1 { return; }
+                if let (Expr::Closure(cm), Expr::MethodCall(fl)) = (&mp.args[0], &*mp.receiver) {
+                    if fl.method != "filter" || fl.args.len() != 1 { return; }
+                    if let (Expr::Closure(cf), Expr::MethodCall(it)) = (&fl.args[0], &*fl.receiver) {
+                        if it.method != "iter" || !it.args.is_empty() || cf.inputs.len() != 1 || cm.inputs.len() != 1 { return; }
+                        if let (Pat::Ident(a), Pat::Ident(b)) = (&cf.inputs[0], &cm.inputs[0]) {
+                            let x = txt(self.src, &*it.receiver);
+                            let p = txt(self.src, &*cf.body);
+                            let f = txt(self.src, &*cm.body);
+                            let (s, e) = nr(col);
+                            self.edits.push(Edit {
+                                start: s,
+                                end: e,
+                                text: format!(
+                                    "{{ let mut out_ = HashSet::new(); for it_ in {x}.iter() {{ let keep_ = {{ let {a} = &it_; {p} }}; if keep_ {{ let {b} = it_; out_.insert({f}); }} }} out_ }}",
+                                    x = x, a = a.ident, p = p, b = b.ident, f = f
+                                ),
+                                rule: "R13",
+                            });
+                        }
+                    }
+                }
+            }
+        }
+    }
+}
+impl<'a, 'ast> Visit<'ast> for R13<'a> {
+    fn visit_impl_item_fn(&mut self, f: &'ast syn::ImplItemFn) {
+        self.try_fn(&f.sig, &f.block);
+    }
+    fn visit_item_fn(&mut self, f: &'ast syn::ItemFn) {
+        self.try_fn(&f.sig, &f.block);
+    }
+}
+fn r13(src: &str, f: &syn::File, _c: &Ctx, e: &mut Vec<Edit>) {
+    R13 { src, edits: e }.visit_file(f);
 }
